@@ -1889,7 +1889,9 @@ class Memoer(Tymee):
         zbz = (self.size - zoz)  # max zeroth gram body size >=1
         nbz = (self.size - noz)  # max non-zeroth gram body size >=1
         ml = len(memo)
-        gc = math.ceil((ml+nbz-zbz)/nbz)
+        # one zeroth gram plus as many non-zeroth grams as the rest needs.
+        # zbz may exceed nbz by more than ml when curt
+        gc = 1 + math.ceil(max(0, ml - zbz) / nbz)
         mms = min(self.MaxMemoSize, (nbz*(self.MaxGramCount-1) + zbz))  # max memo payload
         if ml > mms:
             raise hioing.MemoerError(f"Memo length={ml} exceeds max={mms}")
